@@ -5,6 +5,8 @@ CONSTANTS
   Bondeds = {}
   Coeffs = {}
   MaxDists = {}
+  MaxAbs = {}
+  MaxDenoms = {"aISLM"}
   ExtDeltas = {}
   InitSupply = "20000000000000000000000000000"
   MaxLen = 0
